@@ -7,7 +7,7 @@
    them and is evaluated by the contract monitor on every case of every run. *)
 From Coq.Strings Require Import Byte.
 From EsVerif.Common Require Import Base Bytes.
-From EsVerif.C04 Require Import TextModel Spec DecProofs ScanProofs WriteProofs RoundTrip CheckProofs.
+From EsVerif.C04 Require Import Gen TextModel Spec DecProofs ScanProofs WriteProofs RoundTrip CheckProofs FmtModel.
 
 (* ---- integers: printf %d / scanf %d and the memory image are inverse to each other *)
 Theorem C04_dec_parse_roundtrip : forall z, parse_dec (dec z) = z.
@@ -57,6 +57,36 @@ Theorem C04_roundtrip_space_delim : forall F P t,
   table_ok t -> fcontract F P t ->
   roundtrip_ok t (read_text P space (tdt t) (Z.of_nat (length (trows t))) (write_text F space t)).
 Proof. intros F P t Ht Hc. apply C04_roundtrip_outside_known; try assumption; reflexivity. Qed.
+
+(* ---- the instance the correspondence run evaluates: printf("%.<p>g") and strtod/strtof as modelled in
+   FmtModel.v, the precisions <p> being Gen.print_prec_f8 / Gen.print_prec_f4 (regenerated from
+   records.cpp on every run).  [fcontract F_model P_model t] is decided by evaluation for every case. *)
+Theorem C04_roundtrip_fmt_model : forall d t,
+  table_ok t -> delim_ok d -> fcontract F_model P_model t -> kf_leading_ws_after_numeric d t = false ->
+  read_text P_model d (tdt t) (Z.of_nat (length (trows t))) (write_text F_model d t) = Ok (expected F_model P_model t)
+  /\ roundtrip_ok t (read_text P_model d (tdt t) (Z.of_nat (length (trows t))) (write_text F_model d t)).
+Proof. intros d t. apply C04_roundtrip_outside_known. Qed.
+
+(* the contract is not vacuous for the modelled printf/strtod: binary64 1/3, -0, nan, inf, the least subnormal,
+   1e22, 123456, 0.0001, binary32 0.1f and FLT_MAX print as glibc prints them and come back within the stated digits *)
+Example C04_fmt_model_examples :
+  F_model 8 [x55; x55; x55; x55; x55; x55; xd5; x3f] = [x30; x2e; x33; x33; x33; x33; x33; x33; x33; x33; x33; x33; x33; x33; x33; x33; x33; x33]
+  /\ F_model 8 [x00; x00; x00; x00; x00; x00; x00; x80] = [x2d; x30]
+  /\ F_model 8 [x01; x00; x00; x00; x00; x00; x00; x00] = [x34; x2e; x39; x34; x30; x36; x35; x36; x34; x35; x38; x34; x31; x32; x34; x36; x35; x65; x2d; x33; x32; x34]
+  /\ F_model 8 [x92; xd5; x4d; x06; xcf; xf0; x80; x44] = [x31; x65; x2b; x32; x32]
+  /\ F_model 8 [x00; x00; x00; x00; x00; x24; xfe; x40] = [x31; x32; x33; x34; x35; x36]
+  /\ F_model 8 [x2d; x43; x1c; xeb; xe2; x36; x1a; x3f] = [x30; x2e; x30; x30; x30; x31]
+  /\ F_model 4 [xcd; xcc; xcc; x3d] = [x30; x2e; x31]
+  /\ F_model 4 [xff; xff; x7f; x7f] = [x33; x2e; x34; x30; x32; x38; x32; x33; x65; x2b; x33; x38]
+  /\ P_model 8 [x30; x2e; x31] = [x9a; x99; x99; x99; x99; x99; xb9; x3f]
+  /\ P_model 4 [x33; x2e; x34; x30; x32; x38; x32; x33; x65; x2b; x33; x38] = [xfd; xff; x7f; x7f]
+  /\ fcell_ok_b F_model P_model 8 [x55; x55; x55; x55; x55; x55; xd5; x3f] = true
+  /\ fcell_ok_b F_model P_model 8 [x01; x00; x00; x00; x00; x00; x00; x00] = true
+  /\ fcell_ok_b F_model P_model 8 [x00; x00; x00; x00; x00; x00; xf8; xff] = true
+  /\ fcell_ok_b F_model P_model 8 [x00; x00; x00; x00; x00; x00; xf0; xff] = true
+  /\ fcell_ok_b F_model P_model 4 [xff; xff; x7f; x7f] = true
+  /\ fcell_ok_b F_model P_model 4 [xcd; xcc; xcc; x3d] = true.
+Proof. vm_compute. repeat split; reflexivity. Qed.
 
 (* ---- the full statement ("for every single-character delimiter", strings with leading blanks) is false
    of the code: [('s','S3'),('i','i4')], rows ("  a",1),("  b",2), delim ',' *)
